@@ -61,6 +61,40 @@ def gen_cases(tier, seed):
                     "charges": [[jcharge(c) for c in subsets[i]] for i in combo],
                     "static": bool(len(combo) % 2) and sym != "Z4",
                 }
+    yield from _gen_large_and_twin(tier, seed)
+
+
+def _gen_large_and_twin(tier, seed):
+    """(a) indices with many charges next to indices with one or two (ratios 4..9), ranks 1-3;
+    (b) 'twin' structures that differ only by the charges -1 <-> -2 (equal CPython hashes), enumerated one after
+    the other in the same process (history)"""
+    rng = np.random.default_rng([seed, 171])
+    wide = {"U1": list(range(-4, 6)), "U1U1": [(a, b) for a in (-2, -1, 0, 1) for b in (-1, 0, 1)], "Z4": [0, 1, 2, 3], "Z2Z2": [(0, 0), (0, 1), (1, 0), (1, 1)]}
+    n = 60 if tier == "quick" else 1500
+    for sym, pool in wide.items():
+        for i in range(n):
+            nd = int(rng.integers(1, 4))
+            big = int(rng.integers(0, nd))
+            sets = []
+            for ax in range(nd):
+                k = int(rng.integers(5, len(pool) + 1)) if ax == big and len(pool) >= 5 else int(rng.integers(1, 3))
+                k = min(k, len(pool))
+                sets.append([pool[j] for j in sorted(rng.choice(len(pool), size=k, replace=False).tolist())])
+            yield {"contract": "C17.sector_enumeration", "sym": sym, "charges": [[jcharge(c) for c in cs] for cs in sets], "static": bool(i % 2) and sym != "Z4", "few_duals": True}
+    swap = lambda c: (-2 if c == -1 else -1 if c == -2 else c)  # noqa: E731
+    for sym in ("U1", "U1U1"):
+        for i in range(40 if tier == "quick" else 600):
+            nd = int(rng.integers(2, 4))
+            sets = []
+            for ax in range(nd):
+                if sym == "U1":
+                    base = [-2 if (i + ax) % 2 else -1] + [int(v) for v in rng.choice([0, 1, 2, 3], size=int(rng.integers(1, 3)), replace=False)]
+                    sets.append(sorted(set(base)))
+                else:
+                    base = [((-2 if (i + ax) % 2 else -1), 1), (0, 0)] + ([(1, 0)] if rng.integers(2) else [])
+                    sets.append(sorted(set(base)))
+            twin = [[swap(c) if sym == "U1" else (swap(c[0]), c[1]) for c in cs] for cs in sets]
+            yield {"contract": "C17.sector_enumeration", "sym": sym, "charges": [[jcharge(c) for c in cs] for cs in sets], "twin": [[jcharge(c) for c in sorted(set(cs))] for cs in twin], "static": bool(i % 2), "few_duals": True}
 
 
 def _laws(sym, a, dom):
@@ -111,32 +145,38 @@ def check_case(d):
         a = ucharge(d["a"])
         fails, n = _laws(sym, a, _domain(sym, d.get("tier", "quick")))
         return {"fingerprint": ("laws", sym, a), "nontrivial": True, "failures": fails[:5], "sample": {"sym": sym, "a": d["a"], "tuples_checked": n}}
-    chargesets = [[ucharge(c) for c in cs] for cs in d["charges"]]
-    nd = len(chargesets)
     fails = []
     nvalid = 0
-    cls = (ABELIAN_CLS[sym] if d["static"] else sr.AbelianArray) if sym != "Z4" else sr.AbelianArray  # noqa: F405
-    kw = {} if (d["static"] and sym != "Z4") else {"symmetry": sym}
-    totals = CHARGE_SETS[sym] if sym not in ("U1",) else [-2, -1, 0, 1, 2, 3]
-    if sym == "U1U1":
-        totals = [(0, 0), (0, 1), (1, 0), (1, 1), (-1, 1), (1, -1), (2, 0)]
-    for duals in itertools.product((False, True), repeat=nd):
-        indices = tuple(sr.BlockIndex({c: 1 for c in cs}, dual=dl) for cs, dl in zip(chargesets, duals))
-        for tot in totals:
-            x = cls(indices=indices, charge=tot, **kw)
-            got = list(x.gen_valid_sectors())
-            want = brute_valid_sectors(sym, chargesets, duals, tot)
-            nvalid += len(want)
-            feats = {"sym": sym, "ndim": nd, "last_dual": bool(duals[-1]) if nd else None}
-            if len(set(got)) != len(got):
-                fails.append(("C17.sectors_no_repeat", f"{sym} {chargesets} duals={duals} charge={tot!r}: repeated", feats))
-            if set(got) - set(want):
-                fails.append(("C17.sectors_sound", f"{sym} {chargesets} duals={duals} charge={tot!r}: extra {sorted(set(got) - set(want))[:3]}", feats))
-            if set(want) - set(got):
-                fails.append(("C17.sectors_complete", f"{sym} {chargesets} duals={duals} charge={tot!r}: missing {sorted(set(want) - set(got))[:3]}", feats))
-            for s in want[:2]:
-                if not x.is_valid_sector(s):
-                    fails.append(("C17.is_valid_sector", f"{s!r} rejected", feats))
+    families = [d["charges"]] + ([d["twin"]] if d.get("twin") else [])
+    for fam in families:  # a twin structure is enumerated after the first one, in the same process
+        chargesets = [[ucharge(c) for c in cs] for cs in fam]
+        nd = len(chargesets)
+        cls = (ABELIAN_CLS[sym] if d["static"] else sr.AbelianArray) if sym != "Z4" else sr.AbelianArray  # noqa: F405
+        kw = {} if (d["static"] and sym != "Z4") else {"symmetry": sym}
+        totals = CHARGE_SETS[sym] if sym not in ("U1",) else [-2, -1, 0, 1, 2, 3]
+        if sym == "U1U1":
+            totals = [(0, 0), (0, 1), (1, 0), (1, 1), (-1, 1), (1, -1), (2, 0)]
+        dual_patterns = list(itertools.product((False, True), repeat=nd))
+        if d.get("few_duals") and len(dual_patterns) > 4:
+            dual_patterns = dual_patterns[:: max(1, len(dual_patterns) // 4)]
+        for duals in dual_patterns:
+            indices = tuple(sr.BlockIndex({c: 1 for c in cs}, dual=dl) for cs, dl in zip(chargesets, duals))
+            for tot in totals:
+                x = cls(indices=indices, charge=tot, **kw)
+                got = list(x.gen_valid_sectors())
+                want = brute_valid_sectors(sym, chargesets, duals, tot)
+                nvalid += len(want)
+                feats = {"sym": sym, "ndim": nd, "last_dual": bool(duals[-1]) if nd else None, "twin": bool(d.get("twin")), "many_charges": max(len(cs) for cs in chargesets) >= 5 if nd else False}
+                if len(set(got)) != len(got):
+                    fails.append(("C17.sectors_no_repeat", f"{sym} {chargesets} duals={duals} charge={tot!r}: repeated", feats))
+                if set(got) - set(want):
+                    fails.append(("C17.sectors_sound", f"{sym} {chargesets} duals={duals} charge={tot!r}: extra {sorted(set(got) - set(want))[:3]}", feats))
+                if set(want) - set(got):
+                    fails.append(("C17.sectors_complete", f"{sym} {chargesets} duals={duals} charge={tot!r}: missing {sorted(set(want) - set(got))[:3]}", feats))
+                for s_ in want[:2]:
+                    if not x.is_valid_sector(s_):
+                        fails.append(("C17.is_valid_sector", f"{s_!r} rejected", feats))
+    chargesets = [[ucharge(c) for c in cs] for cs in d["charges"]]
     return {
         "fingerprint": ("sectors", sym, tuple(map(tuple, map(lambda cs: tuple(map(str, cs)), chargesets))), d["static"]),
         "nontrivial": nvalid > 0,
